@@ -28,6 +28,8 @@ func Wait(c *sexp.S, out *Out) {
 		out.Put("%s", patient(func() string { return waitTiming(math.Float64frombits(c.List[4].Uint())) }))
 	case "shape":
 		out.Put("%s", patient(func() string { return waitShape(c.List[4].Atom, c.List[5].Int(), c.List[6].Atom == "err") }))
+	case "cross":
+		out.Put("%s", patient(func() string { return waitCross(c.List[4].Atom, c.List[5].Int()) }))
 	case "abandon":
 		out.Put("%s", patient(func() string { return waitAbandon(c.List[4].Atom, c.List[5].Atom == "err", c.List[6].Atom == "err") }))
 	default:
@@ -46,6 +48,78 @@ func patient(scenario func() string) string {
 		res = scenario()
 	}
 	return res
+}
+
+// waitCross: runner B is inside a built-in <<wait>>; runner A, with a command of its own pending, is restored (or its
+// command completes, fails, or a third runner is created) meanwhile. B's wait is B's business: it ends when its time is
+// up — Next answers "waiting" until then and resumes afterwards, exactly as when B runs alone.
+func waitCross(what string, ms int) string {
+	script := "title: S\n---\nbefore\n<<wait {$n}>>\nafter\n===\n"
+	storerB := variable.NewInMemoryStorer()
+	storerB.SetNumberValue("n", float64(ms)/1000)
+	b, err := ysgo.NewDialogueRunner(storerB, "b", strings.NewReader(script))
+	if err != nil {
+		return "CROSS loaderr"
+	}
+	a, err := ysgo.NewDialogueRunner(nil, "a", strings.NewReader("title: S\n---\nbefore\n<<work>>\nafter\n===\n"))
+	if err != nil {
+		return "CROSS loaderr"
+	}
+	gate := make(chan error, 1)
+	a.AddCommand("work", func([]*variable.Value) <-chan error { return gate })
+	snapA := a.Snapshot()
+	for _, r := range []*ysgo.DialogueRunner{a, b} {
+		if el, err, _, p := timedNext(r); p || err != nil || el == nil || el.Line.Text != "before" {
+			return "CROSS bad-first-line"
+		}
+	}
+	if _, err, _, p := timedNext(a); p || err != ysgo.ErrWaitingForCommandCompletion {
+		return "CROSS a-not-waiting"
+	}
+	start := time.Now()
+	if _, err, _, p := timedNext(b); p || err != ysgo.ErrWaitingForCommandCompletion {
+		return "CROSS b-not-waiting"
+	}
+	switch what {
+	case "restore":
+		if err := a.RestoreAt(snapA); err != nil {
+			return "CROSS restore-refused"
+		}
+	case "complete":
+		gate <- nil
+		timedNext(a)
+	case "fail":
+		gate <- fmt.Errorf("work failed")
+		timedNext(a)
+	case "new":
+		if _, err := ysgo.NewDialogueRunner(nil, "c", strings.NewReader(script)); err != nil {
+			return "CROSS loaderr"
+		}
+	}
+	for {
+		el, err, took, p := timedNext(b)
+		elapsed := time.Since(start)
+		switch {
+		case p:
+			return "CROSS panic"
+		case took > nextBudget:
+			return fmt.Sprintf("CROSS next-blocked-for %v", took)
+		case err == ysgo.ErrWaitingForCommandCompletion:
+			if elapsed > time.Duration(ms)*time.Millisecond+3*time.Second {
+				return "CROSS never-completed: the other runner's " + what + " took this runner's wait with it"
+			}
+			time.Sleep(2 * time.Millisecond)
+		case err != nil:
+			return "CROSS error " + err.Error()
+		case el != nil && el.Line != nil && el.Line.Text == "after":
+			if elapsed < time.Duration(ms)*time.Millisecond-time.Millisecond {
+				return fmt.Sprintf("CROSS early: the wait of %d ms was reported over after %v", ms, elapsed)
+			}
+			return "CROSS ok"
+		default:
+			return "CROSS unexpected-element"
+		}
+	}
 }
 
 // waitAbandon: a command is pending, the runner is restored (which abandons that invocation), the abandoned invocation
